@@ -330,6 +330,16 @@ theorem concurrent_progress (cfg : Cfg) (f : Files) (progs : Nat → List Op) (s
     (∃ t, (Mutex.step (sys cfg) true c t).isSome = true) ∨ Mutex.AllDone c :=
   Mutex.progress (sys cfg) (fresh f) progs sch c he
 
+/-- clause "every Write returns in bounded time", for any number of goroutines: every method, started in ANY state,
+    finishes within `opBound` micro-steps (`Write(b)`: at most two passes, one rotation of `MaxBackups+3` actions, and
+    `len b` bytes), hence EVERY schedule of `n` goroutines is at most `Σ_goroutines Σ_calls (opBound + 2)` steps long —
+    no schedule runs for ever, and with `concurrent_progress` every call is completed -/
+theorem concurrent_returns_in_bounded_time (cfg : Cfg) (f : Files) (progs : Nat → List Op) (n : Nat)
+    (hn : ∀ t, n ≤ t → progs t = []) (sch : List Nat) (c : Mutex.Config St Op PC Nat)
+    (he : Mutex.exec (sys cfg) true (Mutex.init (fresh f) progs) sch = some c) :
+    sch.length ≤ Mutex.sumTo n (fun t => Mutex.cost (fun op => opBound cfg op + 2) (progs t)) :=
+  Mutex.schedule_bounded_programs (sys cfg) (opBound cfg) (op_bounded cfg) (fresh f) progs n hn sch c he
+
 /-- two goroutines, MaxSize 2, one backup: goroutine 0 writes `[1,1]`, goroutine 1 writes `[2,2]`, goroutine 0 writes `[3]` -/
 def demoProgs : Nat → List Op
   | 0 => [.write [1, 1], .write [3]]
